@@ -5,6 +5,8 @@ import ast
 
 import sympy as sp
 
+from ptstat.world import mass_sym
+
 from ptstat import AnalysisError
 from ptstat.symval import SymObj, Phi, SymRaise, merge
 from .common import world, eq, dict_eq, fsite, raises, tuple_everywhere, _s
@@ -95,14 +97,13 @@ def run(ctx):
     ctx.floor("R1", 12)
 
     # ---- R2 mass / charge / fractions per atom kind --------------------------
-    m = {k: sp.Symbol(s, positive=True) for k, s in
-         dict(element="m_Fe", isotope="m_Fe56", DT="m_D").items()}
+    m = {k: mass_sym(s) for k, s in dict(element="Fe", isotope="Fe56", DT="D").items()}
     me, NA = sp.Symbol("m_e", positive=True), sp.Symbol("N_A", positive=True)
     expect_mass = {"element": m["element"], "isotope": m["isotope"], "DT": m["DT"],
                    "ion_element": m["element"] - 2 * me, "ion_isotope": m["isotope"] - 3 * me,
                    "ion_DT": m["DT"] - me}
     expect_charge = {"element": 0, "isotope": 0, "DT": 0, "ion_element": 2, "ion_isotope": 3, "ion_DT": 1}
-    mO = sp.Symbol("m_O", positive=True)
+    mO = mass_sym("O")
     s_mass = fsite(ctx, "formulas.Formula.mass")
     for kind in w.KINDS:
         a = A[kind]
